@@ -25,7 +25,7 @@ COQ_KIND = {'out': 'Outgoing', 'resp': 'Outgoing', 'server': 'Server', 'in': 'In
 
 F14 = 'F14-accept-reports-CONNECTED-after-close'
 F15 = 'F15-cancelled-connect-stays-CONNECTING-and-registered'
-F27 = 'F27-connect-completes-after-concurrent-disconnect'
+N1 = 'C10-N1-connect-completes-after-concurrent-disconnect'
 
 
 # ---------------------------------------------------------------------------------------
@@ -84,11 +84,11 @@ def classify(sc, r, viols):
             key = F14
         if key is None and kind in ('out', 'resp', 'server') and _late_connect(sc, r):
             if chk in ('monotone', 'closed_once_last', 'no_delivery_after_closed', 'send_after_closed_noop', 'registry_exact'):
-                key = F27
+                key = N1
         if key is None and chk == 'registry_exact' and kind in ('out', 'resp') and r['in_open_connection'] and not r['in_registry'] \
                 and r['state'] == 'CLOSED' and rep == ['CONNECTING', 'CLOSING', 'CLOSED'] \
                 and any(e.startswith('Disconnect') for g in r['events'] for e in g):
-            key = F27   # the same race, observed before the connect completes: attempt still running, connection unregistered
+            key = N1   # the same race, observed before the connect completes: attempt still running, connection unregistered
         if key is None and chk == 'registry_exact' and kind in ('out', 'resp') and r['state'] == 'CONNECTING' \
                 and r['attempt'] == 'cancelled' and r['in_registry'] and rep == ['CONNECTING']:
             key = F15
@@ -266,7 +266,7 @@ def examine(run, sc, r, source):
         what = {
             F14: 'ListeningConnection.accept runs set_state(CONNECTED) after on_peer_accepted closed the connection: CONNECTED reported after CLOSING/CLOSED',
             F15: 'DataConnection.connect does not handle CancelledError: the cancelled attempt leaves the connection CONNECTING and in Network.peer_connections',
-            F27: 'disconnect() during open_connection does not stop the attempt: connect() then reports CONNECTED after CLOSED; the socket is open, unregistered, receives and sends',
+            N1: 'disconnect() during open_connection does not stop the attempt: connect() then reports CONNECTED after CLOSED; the socket is open, unregistered, receives and sends',
         }.get(key, f'{items[0][0]} violated: reported={r["reported"]} {items[0][1]}')
         run.add_finding(Finding(key, what, {'scenario': sc, 'checks': sorted({c for c, _ in items})},
                                 observed={'reported': r['reported'], 'state': r['state'], 'in_registry': r['in_registry'],
